@@ -9,11 +9,12 @@ from ..common import d42  # noqa: F401
 from th import PathHolder
 from d42.validation import Formatter
 
-MODULE = "D42.Props.C03"
-THEOREMS = ["errors_located", "validateP_located", "validateAllP_located", "validateElemsP_located",
-            "windowsP_located", "validateFieldsP_located", "validateScalar_here", "minByLen_mem"]
+MODULE = "D42.Props.C03Facts"
+THEOREMS = ["errors_located", "errors_true", "siblings_disjoint_list", "siblings_disjoint_dict", "shownPath_extends",
+            "validateP_located", "validateAllP_located", "validateElemsP_located", "windowsP_located",
+            "validateFieldsP_located", "validateScalar_here", "validateScalar_true", "validateP_true", "minByLen_mem"]
 FILES = ["D42/Model/Data.lean", "D42/Model/Float.lean", "D42/Model/Validate.lean", "D42/Spec/Conforms.lean",
-         "D42/Props/C02.lean", "D42/Props/C03.lean"]
+         "D42/Props/C02.lean", "D42/Props/C03.lean", "D42/Props/C03Facts.lean"]
 
 EVIDENCE = dict(
     level="proof",
@@ -113,6 +114,14 @@ def oracle(ctx, cases):
             if ok is False:
                 ctx.violation("the fact stated by the error is false of the reported sub-value", **info)
             msg = e.format(fmt)
+            # rendering must not disturb the error: same message again, path still resolves to the same sub-value
+            try:
+                again = e.format(fmt)
+                reached2 = follow(c.value, e.path)
+                if again != msg or not same(reached2, e.actual_value):
+                    ctx.violation("rendering an error changed it (second rendering / path differs)", first=msg, second=again, **info)
+            except Exception as ex:  # noqa: BLE001
+                ctx.violation("after rendering, the error's path no longer resolves (%s)" % type(ex).__name__, message=msg, **info)
             n = type(e).__name__
             shown = list(e.path)
             if n == "MissingElementValidationError":
